@@ -137,7 +137,7 @@ fn bad_pattern() -> impl Strategy<Value = String> {
 fn bad_case() -> BoxedStrategy<Case> {
     let good_alist = || super::c08::matrix_strategy(6).prop_map(|m| own_alist(&m, true));
     let bad_alist = || {
-        super::c08::text_strategy(Tier::Quick).prop_map(|t| super::c08::render(&t)).prop_filter("must be rejected by the Rust parser or be out of the C string domain", |s| !s.contains('\0') && super::c08::moderate_decl(s) && ldpc_toolbox::sparse::SparseMatrix::from_alist(s).is_err())
+        super::c08::text_strategy(Tier::Quick).prop_map(|t| super::c08::render(&t)).prop_filter("must be rejected by the Rust parser or be out of the C string domain", |s| !s.contains('\0') && super::c08::moderate_decl(s) && std::panic::catch_unwind(|| ldpc_toolbox::sparse::SparseMatrix::from_alist(s).is_err()).unwrap_or(true))
     };
     let name = || (0..36usize).prop_map(|i| NAMES[i].to_string());
     let bad_name = || prop_oneof![Just(String::new()), name().prop_map(|s| s.to_lowercase()), name().prop_map(|s| format!("{s} ")), name().prop_map(|s| format!("HL{s}")), "[A-Za-z0-9]{1,10}"].prop_filter("non-member", |s| !NAMES.contains(&s.as_str()));
